@@ -46,6 +46,9 @@ bits! {
 	c01q_bits_lsb_o2_n4: Lsb0, 2, 4, false; c01t_bits_lsb_o1_n5: Lsb0, 1, 5, false;
 }
 
+// NOTE: the two `c06x_` harnesses below are NOT part of any registered check (no filter matches the prefix): measured 2026-10-04,
+// both run into the 2400 s cap (bitvec's owned-buffer paths: pointer-encoded bit spans over heap storage). They document the edge of
+// the feasible region: bit SLICES inside one word are decided (c06q_bits_*), owned BitVec/BitBox values are outside the bounds.
 /// C01/C06: an OWNED bit vector whose storage holds stale bits behind its end (decoded from bytes with non-zero padding; the
 /// decoder does not inspect padding) must still encode with ZERO padding: equal vectors encode equally, whatever their history
 #[cfg(any(feature = "c01", feature = "c06"))]
